@@ -18,7 +18,7 @@
 (***************************************************************************)
 EXTENDS FcEdit, Json, IOUtils
 
-DS  == JsonDeserialize(IOEnv.SCHEMA)
+DS  == TLCEval(IndexDS(JsonDeserialize(IOEnv.SCHEMA)))
 Ops == LET raw == JsonDeserialize(IOEnv.OPS)
        IN { [k |-> raw[i].k, at |-> raw[i].at, s |-> TreeOf(raw[i].s)] : i \in DOMAIN raw }
 
